@@ -46,6 +46,15 @@ pub fn all() -> Vec<History> {
         new_spec(0, vec![Act::Upgrade { src: WLoc::Of(Own::Me, 0), dst: Dst::G(0) }], vec![]), Act::Downgrade { src: Src::R(0), dst: WLoc::Of(Own::R(0), 0) }, set(0, 0, 0), drop_r(0), Act::CollectQuiet,
         Act::Drop { dst: Dst::G(0) }, Act::CollectQuiet,
     ]));
+    // plain-drop finalizer resurrects self into its own traced slot: alive by its count, unreachable, must be buffered
+    v.push(("rc_resurrect_into_own_slot", vec![
+        new_spec(0, vec![Act::Upgrade { src: WLoc::Of(Own::Me, 0), dst: Dst::Slot(Own::Me, false, 1) }], vec![]), Act::Downgrade { src: Src::R(0), dst: WLoc::Of(Own::R(0), 0) }, drop_r(0), Act::Query, Act::CollectQuiet,
+    ]));
+    // ... and into the slot of a child it solely owns
+    v.push(("rc_resurrect_into_child_slot", vec![
+        new_spec(0, vec![Act::Upgrade { src: WLoc::Of(Own::Me, 0), dst: Dst::Slot(Own::G(0), false, 0) }, Act::Take { src: Src::G(0), dst: Dst::Slot(Own::Me, false, 0) }], vec![]), Act::Downgrade { src: Src::R(0), dst: WLoc::Of(Own::R(0), 0) },
+        new(1), Act::Take { src: Src::R(1), dst: Dst::G(0) }, drop_r(0), Act::Query, Act::CollectQuiet,
+    ]));
     // plain-drop finalizer resurrects self
     v.push(("rc_resurrect_self", vec![
         new_spec(0, vec![Act::Upgrade { src: WLoc::Of(Own::Me, 0), dst: Dst::G(1) }], vec![]), Act::Downgrade { src: Src::R(0), dst: WLoc::Of(Own::R(0), 0) }, drop_r(0), Act::Query, Act::Drop { dst: Dst::G(1) }, Act::CollectQuiet,
